@@ -57,6 +57,9 @@ type history struct {
 	rewardsReDeleg *big.Int // same for accepted reDelegateRewards
 
 	stopped  bool
+	avoid    bool   // this history never re-funds an emptied delegator record (the known stale-checkpoint shape cannot occur)
+	unbond   uint32 // UnBondPeriodInEpochs written into the contract's configuration
+	nFresh   int
 	reFunded bool // an existing delegator without active fund delegated again after rewards were received
 	overSeen bool
 }
@@ -72,12 +75,57 @@ func (h *history) viol(key, what string, extra map[string]interface{}) {
 	h.stopped = true // one report per history; later states follow from the first bad one
 }
 
+// planned is one step of a scripted scenario woven into the random history
+type planned struct {
+	op   int    // value of the operation selector
+	user []byte // caller (nil: chosen as usual)
+	amt  int64  // delegate value / unDelegate amount / rewards of the epoch (epoch: -1 random, 0 none)
+}
+
+const (
+	opDelegate   = 0
+	opUnDelegate = 6
+	opWithdraw   = 11
+	opClaim      = 14
+	opEpoch      = 1000
+)
+
+// setUnBondPeriod writes UnBondPeriodInEpochs into the delegation contract's stored configuration (the
+// test node hard-codes 1 epoch; mainnet uses 10). The validator contract keeps its own period of 1, so it
+// releases whatever the delegation contract considers matured.
+func (h *history) setUnBondPeriod(p uint32) bool {
+	m := integrationTests.TestMarshalizer
+	st := h.e.Storage(h.sc)
+	cfg := &ssc.DelegationConfig{}
+	if err := m.Unmarshal(cfg, st[ssc.VerifDelegationConfigKey]); err != nil {
+		return false
+	}
+	cfg.UnBondPeriodInEpochs = p
+	b, err := m.Marshal(cfg)
+	if err != nil {
+		return false
+	}
+	h.e.PatchStorage(h.sc, []byte(ssc.VerifDelegationConfigKey), b)
+	h.unbond = p
+	return true
+}
+
+func (h *history) freshUser() []byte {
+	u := bytes.Repeat([]byte{byte(0x60 + h.nFresh)}, 32)
+	h.e.Mint(u, bi(1_000_000_000_000))
+	h.users = append(h.users, u)
+	h.userName[string(u)] = fmt.Sprintf("f%d", h.nFresh)
+	h.nFresh++
+	return u
+}
+
 type snapshot struct {
 	gf         *ssc.GlobalFundData
 	status     *ssc.DelegationContractStatus
 	delegators map[string]*ssc.DelegatorData // by user address
 	active     map[string]*big.Int
 	unstaked   map[string]*big.Int
+	unstEpochs map[string][]uint32 // creation epochs of each delegator's unstaked funds
 	nFunds     int
 }
 
@@ -86,7 +134,7 @@ type snapshot struct {
 func (h *history) check(opName string) (*snapshot, bool) {
 	m := integrationTests.TestMarshalizer
 	st := h.e.Storage(h.sc)
-	s := &snapshot{gf: &ssc.GlobalFundData{}, status: &ssc.DelegationContractStatus{}, delegators: map[string]*ssc.DelegatorData{}, active: map[string]*big.Int{}, unstaked: map[string]*big.Int{}}
+	s := &snapshot{gf: &ssc.GlobalFundData{}, status: &ssc.DelegationContractStatus{}, delegators: map[string]*ssc.DelegatorData{}, active: map[string]*big.Int{}, unstaked: map[string]*big.Int{}, unstEpochs: map[string][]uint32{}}
 	rawGF, ok := st[ssc.VerifGlobalFundKey]
 	if !ok {
 		h.viol("decode", "no globalFund record after "+opName, nil)
@@ -153,6 +201,7 @@ func (h *history) check(opName string) (*snapshot, bool) {
 				ua.Add(ua, f.Value)
 			} else {
 				uu.Add(uu, f.Value)
+				s.unstEpochs[string(u)] = append(s.unstEpochs[string(u)], f.Epoch)
 			}
 		}
 		s.active[string(u)] = ua
@@ -301,11 +350,13 @@ func main() {
 	_ = logger.SetLogLevel("*:NONE")
 	restore := sysc.QuietStdout()
 	r := vk.Start("C38")
-	r.Rule("one history per case: a metachain test node, one delegation contract created with a random deposit (around the 100 minimum or above the 1000 node price), service fee and optional cap, 3-5 delegators plus the owner; 45-80 operations drawn from delegate / unDelegate (random, all, leaving dust) / withdraw / claimRewards / reDelegateRewards / epoch change with or without rewards through EpochStartSystemSCProcessor.ProcessDelegationRewards / owner operations (addNodes, stakeNodes, unStakeNodes, unBondNodes, reStakeUnStakedNodes, changeServiceFee, modifyTotalDelegationCap, setAutomaticActivation), all as real transactions. Every operation is followed by the full oracle. A step is non-trivial when the operation was accepted or rejected by the contract itself; its shape is (operation, outcome, caller class, has active fund, #unstaked funds bucket, unbondable, nodes staked).")
+	r.Rule("one history per case: a metachain test node, one delegation contract created with a random deposit (around the 100 minimum or above the 1000 node price), service fee and optional cap, 3-5 delegators plus the owner; 45-80 operations drawn from delegate / unDelegate (random, all, leaving dust) / withdraw / claimRewards / reDelegateRewards / epoch change with or without rewards through EpochStartSystemSCProcessor.ProcessDelegationRewards / owner operations (addNodes, stakeNodes, unStakeNodes, unBondNodes, reStakeUnStakedNodes, changeServiceFee, modifyTotalDelegationCap, setAutomaticActivation), all as real transactions. Every operation is followed by the full oracle. A step is non-trivial when the operation was accepted or rejected by the contract itself; its shape is (operation, outcome, caller class, has active fund, #unstaked funds bucket, unbondable, nodes staked). The contract's unbond period is set to 1, 2 or 3 epochs. About every ninth step starts a scripted scenario woven into the history: \"staggered unbond\" (one delegator undelegates small amounts in 3-4 consecutive epochs, then withdraws at epochs where only the oldest funds have matured) or \"late joiner\" (rewards are registered for a new epoch, a brand-new address delegates in that same epoch, old and new delegators claim in this and the next epoch). Histories with an even index never re-fund an emptied delegator record (the C36 known stale-checkpoint shape cannot occur there). Every history ends with all delegators claiming.")
 	r.Assume("integrationTests.TestProcessorNode wiring (real TxProcessor, scProcessor, system VM, eei, AccountsDB; disabled BLS signature verifier) is the trusted base",
 		"all enable epochs of the test node are 0, so every feature flag of the system contracts is on",
 		"amount withdrawn is measured as what leaves the validator contract's balance, rewards paid as what leaves the delegation contract's balance; undelegated is the requested amount of accepted unDelegate transactions (upper bound of the real one)",
-		"C36 delegation half is evaluated as a counter only: paid + re-delegated + sum of getClaimableRewards <= rewards received")
+		"C36 delegation half is evaluated as a counter only: paid + re-delegated + sum of getClaimableRewards <= rewards received",
+		"the unbond period (hard-coded to 1 epoch in the test node) is written into the contract's stored DelegationConfig (1-3 epochs); the validator contract keeps its period of 1 and releases whatever the delegation contract considers matured",
+		"end of history: for each delegator in turn, paid + re-delegated + getClaimableRewards(delegator) must not exceed rewards received (else paying him makes rewards paid exceed rewards received, or his claim is refused); histories containing the known stale-checkpoint shape (C36 known finding: an emptied record re-funded after rewards) only count it")
 	r.MinShapes(40)
 	nCases := r.N(300, 3000)
 
@@ -376,10 +427,17 @@ func runHistory(r *vk.Run, c *vk.Case) {
 		k := rng.Bytes(96)
 		h.blsKeys = append(h.blsKeys, k)
 	}
+	h.avoid = c.Idx%2 == 0
+	if !h.setUnBondPeriod([]uint32{1, 2, 2, 3, 3}[rng.Intn(5)]) {
+		r.Inconclusive("delegation configuration record not found")
+		return
+	}
+	h.log[0] += fmt.Sprintf(" unbond=%d noRefundMode=%v", h.unbond, h.avoid)
 	snap, ok := h.check("create")
 	if !ok {
 		return
 	}
+	var plan []planned
 
 	steps := 45 + rng.Intn(36)
 	if !r.Quick() {
@@ -387,11 +445,24 @@ func runHistory(r *vk.Run, c *vk.Case) {
 	}
 	// op weights vary per history so that some histories are reward-heavy, some churn-heavy
 	rewardBias := rng.Intn(3)
-	for step := 0; step < steps && !h.stopped; step++ {
+	for step := 0; (step < steps || len(plan) > 0) && !h.stopped; step++ {
 		e.Nonce++
 		e.SetHeader()
+		// scripted scenarios, woven into the random history
+		if len(plan) == 0 && step < steps && rng.Chance(1, 9) {
+			plan = h.schedule(rng, snap)
+		}
+		var f *planned
+		if len(plan) > 0 {
+			f = &planned{}
+			*f = plan[0]
+			plan = plan[1:]
+		}
 		// pick the operation first, then a caller that makes it interesting most of the time
 		op := rng.Intn(22 + rewardBias)
+		if f != nil {
+			op = f.op
+		}
 		pick := func(pred func(u []byte) bool, num, den int) []byte {
 			if rng.Chance(num, den) {
 				var cand [][]byte
@@ -420,6 +491,15 @@ func runHistory(r *vk.Run, c *vk.Case) {
 		default:
 			u = pick(hasRecord, 5, 6)
 		}
+		if f != nil && f.user != nil {
+			u = f.user
+		}
+		if h.avoid && (op <= 5 || op == 16) && hasRecord(u) && !hasActive(u) {
+			// would re-fund an emptied record: the known stale-checkpoint shape; not in this history
+			r.Count("refund_skipped_in_no_refund_mode", 1)
+			r.Trivial()
+			continue
+		}
 		un := h.userName[string(u)]
 		e.CleanSCRs()
 		balUser := e.Balance(u)
@@ -442,6 +522,9 @@ func runHistory(r *vk.Run, c *vk.Case) {
 				value = bi(int64(100 + rng.Intn(300)))
 			default:
 				value = bi(int64(500 + rng.Intn(1500)))
+			}
+			if f != nil {
+				value = bi(f.amt)
 			}
 			dataField = "delegate"
 		case op <= 10:
@@ -468,9 +551,21 @@ func runHistory(r *vk.Run, c *vk.Case) {
 				amt = bi(int64(rng.Intn(3))) // tiny, includes the invalid 0
 			default:
 				amt = bi(int64(1 + rng.Intn(300)))
+				if rng.Chance(2, 3) {
+					amt = bi(int64(100 + rng.Intn(200))) // at least the validator contract's minimum unstake value
+				}
 			}
 			if amt.Sign() < 0 {
 				amt = bi(int64(rng.Intn(3)))
+			}
+			if h.avoid && bytes.Equal(u, owner) && amt.Cmp(act) == 0 {
+				amt = big.NewInt(0).Sub(act, bi(100)) // the owner never empties his stake in this mode
+				if amt.Sign() <= 0 {
+					amt = bi(1)
+				}
+			}
+			if f != nil {
+				amt = bi(f.amt)
 			}
 			value = bi(0)
 			dataField = "unDelegate@" + hx(amt.Bytes())
@@ -558,10 +653,18 @@ func runHistory(r *vk.Run, c *vk.Case) {
 		default:
 			name = "epoch"
 			isTx = false
-			e.Epoch += uint32(1 + rng.Intn(2)*rng.Intn(2))
+			inc := uint32(1 + rng.Intn(2)*rng.Intn(2))
+			withRewards := rng.Intn(4) != 0
+			if f != nil {
+				inc = 1
+				if f.amt >= 0 {
+					withRewards = f.amt > 0
+				}
+			}
+			e.Epoch += inc
 			e.SetHeader()
 			rc, err = vmcommon.Ok, nil
-			if rng.Intn(4) != 0 {
+			if withRewards {
 				name = "epoch+rewards"
 				var val *big.Int
 				switch rng.Intn(4) {
@@ -571,6 +674,9 @@ func runHistory(r *vk.Run, c *vk.Case) {
 					val = bi(int64(rng.Intn(1000)))
 				default:
 					val = bi(int64(rng.Intn(100000)))
+				}
+				if f != nil && f.amt > 0 {
+					val = bi(f.amt)
 				}
 				rt := &rewardTx.RewardTx{Value: val, RcvAddr: h.sc, Epoch: e.Epoch}
 				b, _ := integrationTests.TestMarshalizer.Marshal(rt)
@@ -587,6 +693,23 @@ func runHistory(r *vk.Run, c *vk.Case) {
 			} else {
 				h.logf("epoch -> %d, no rewards", e.Epoch)
 			}
+		}
+		if name == "withdraw" {
+			mat, unm := 0, 0
+			for _, fe := range snap.unstEpochs[string(u)] {
+				if e.Epoch-fe >= h.unbond {
+					mat++
+				} else {
+					unm++
+				}
+			}
+			if mat > 2 {
+				mat = 2
+			}
+			if unm > 2 {
+				unm = 2
+			}
+			r.Count(fmt.Sprintf("withdraw_with_funds:matured=%d,unmatured=%d", mat, unm), 1)
 		}
 		if isTx {
 			h.logf("%s %s value=%s epoch %d", un, dataFieldShort(dataField), value, e.Epoch)
@@ -704,7 +827,16 @@ func runHistory(r *vk.Run, c *vk.Case) {
 		r.Max("max_fund_records", int64(snap.nFunds))
 		r.Max("max_unstaked_funds_per_delegator", int64(maxUnstaked(snap)))
 	}
+	if !h.stopped {
+		h.everybodyClaims(snap)
+	}
+	if h.stopped {
+		return
+	}
 	r.Count("histories", 1)
+	if h.avoid {
+		r.Count("histories_in_no_refund_mode", 1)
+	}
 	r.Count("operations", len(h.log)-1)
 	if r.NeedSample() && len(h.log) > 12 {
 		r.Sample(map[string]interface{}{"case": c.Idx, "first_ops": h.log[:12], "final_total_active": snap.gf.TotalActive.String(), "final_total_unstaked": snap.gf.TotalUnStaked.String(),
@@ -727,4 +859,133 @@ func dataFieldShort(d string) string {
 		return d[:40] + "..." + d[len(d)-8:]
 	}
 	return d
+}
+
+// schedule returns a scripted scenario:
+//   - "staggered unbond": one delegator undelegates small amounts in 3-4 consecutive epochs (one fund per
+//     epoch), then withdraws at epochs where only the oldest funds have matured;
+//   - "late joiner": rewards are registered for a new epoch, then a brand-new address delegates in that same
+//     epoch, then old and new delegators claim in this and the next epoch.
+func (h *history) schedule(rng *vk.Rand, snap *snapshot) []planned {
+	var plan []planned
+	if rng.Bool() {
+		h.r.Count("scenario:staggered-unbond", 1)
+		var cand [][]byte
+		for _, u := range h.users[1:] {
+			if a := snap.active[string(u)]; a != nil && a.Cmp(bi(900)) >= 0 {
+				cand = append(cand, u)
+			}
+		}
+		var d []byte
+		if len(cand) > 0 && rng.Chance(3, 4) {
+			d = cand[rng.Intn(len(cand))]
+		} else {
+			d = h.users[1+rng.Intn(len(h.users)-1)]
+			if _, has := snap.delegators[string(d)]; has && (snap.active[string(d)] == nil || snap.active[string(d)].Sign() == 0) {
+				d = h.freshUser() // never re-fund an emptied record from a script
+			}
+			plan = append(plan, planned{op: opDelegate, user: d, amt: int64(1000 + rng.Intn(500))})
+		}
+		k := 3 + rng.Intn(2)
+		for i := 0; i < k; i++ {
+			if i > 0 {
+				plan = append(plan, planned{op: opEpoch, amt: -1})
+			}
+			plan = append(plan, planned{op: opUnDelegate, user: d, amt: int64(100 + rng.Intn(60))}) // the validator contract refuses to unstake less than the minimum delegation (100)
+		}
+		// the oldest fund matures unbond epochs after its creation; k-1 epochs have passed already
+		for i := k - 1; i < int(h.unbond); i++ {
+			plan = append(plan, planned{op: opEpoch, amt: -1})
+		}
+		plan = append(plan, planned{op: opWithdraw, user: d})
+		plan = append(plan, planned{op: opEpoch, amt: -1}, planned{op: opWithdraw, user: d})
+		if rng.Bool() {
+			plan = append(plan, planned{op: opUnDelegate, user: d, amt: int64(100 + rng.Intn(30))})
+		}
+		plan = append(plan, planned{op: opEpoch, amt: -1}, planned{op: opEpoch, amt: -1}, planned{op: opWithdraw, user: d})
+		return plan
+	}
+	if h.nFresh >= 8 {
+		return nil
+	}
+	h.r.Count("scenario:late-joiner", 1)
+	old := func() []byte {
+		var cand [][]byte
+		for _, u := range h.users {
+			if a := snap.active[string(u)]; a != nil && a.Sign() > 0 {
+				cand = append(cand, u)
+			}
+		}
+		if len(cand) == 0 {
+			return h.users[0]
+		}
+		return cand[rng.Intn(len(cand))]
+	}
+	nu := h.freshUser()
+	plan = append(plan,
+		planned{op: opEpoch, amt: int64(1000 + rng.Intn(100000))},
+		planned{op: opDelegate, user: nu, amt: int64(100 + rng.Intn(2000))},
+		planned{op: opClaim, user: old()},
+		planned{op: opClaim, user: nu},
+		planned{op: opEpoch, amt: int64(1000 + rng.Intn(100000))},
+		planned{op: opClaim, user: nu},
+		planned{op: opClaim, user: old()},
+	)
+	return plan
+}
+
+// everybodyClaims ends a history: every delegator claims. Rewards paid are measured on the contract's
+// balance; what a delegator is owed (getClaimableRewards) on top of what was paid must be covered by the
+// rewards received, otherwise paying everybody makes rewards paid exceed rewards received (or the last
+// claims are refused). Histories that contain the known stale-checkpoint shape only count it.
+func (h *history) everybodyClaims(snap *snapshot) {
+	e := h.e
+	for _, u := range append([][]byte(nil), h.users...) {
+		if h.stopped {
+			return
+		}
+		if _, has := snap.delegators[string(u)]; !has {
+			continue
+		}
+		un := h.userName[string(u)]
+		e.Nonce++
+		e.SetHeader()
+		owedRaw := e.Query(h.sc, "getClaimableRewards", u)
+		if len(owedRaw) != 1 {
+			continue
+		}
+		owed := big.NewInt(0).SetBytes(owedRaw[0])
+		total := big.NewInt(0).Add(h.rewardsPaid, h.rewardsReDeleg)
+		total.Add(total, owed)
+		h.r.Eval(1)
+		h.r.Count("final_claim_checks", 1)
+		if total.Cmp(h.rewardsIn) > 0 {
+			if h.reFunded {
+				h.r.Count("final_claim_owed_gt_received_after_refund_of_emptied_delegator(counter-only, C36 known finding)", 1)
+			} else {
+				h.logf("%s final claimRewards epoch %d: owed %s", un, e.Epoch, owed)
+				h.viol("rewards-owed-gt-received", fmt.Sprintf("everybody claims: paid %s + re-delegated %s + owed to %s %s > rewards received %s", h.rewardsPaid, h.rewardsReDeleg, un, owed, h.rewardsIn), nil)
+				return
+			}
+		}
+		balSC := e.Balance(h.sc)
+		e.CleanSCRs()
+		rc, err := e.Tx(u, h.sc, "claimRewards", bi(0))
+		ok := err == nil && rc == vmcommon.Ok
+		h.logf("%s final claimRewards epoch %d (owed %s) -> %v", un, e.Epoch, owed, ok)
+		h.r.Count(fmt.Sprintf("op:final-claim/%v", ok), 1)
+		if ok {
+			out := big.NewInt(0).Sub(balSC, e.Balance(h.sc))
+			h.rewardsPaid.Add(h.rewardsPaid, out)
+			if out.Cmp(owed) != 0 {
+				h.viol("claim-flow", fmt.Sprintf("final claimRewards by %s paid %s, getClaimableRewards announced %s", un, out, owed), nil)
+				return
+			}
+		}
+		var good bool
+		snap, good = h.check("final-claim")
+		if !good {
+			return
+		}
+	}
 }
